@@ -73,7 +73,7 @@ func main() {
 		fakeAssemblerMain(os.Args[1:])
 		return
 	}
-	if stream == "isochild" && len(os.Args) == 7 {
+	if stream == "isochild" && len(os.Args) >= 7 {
 		isoChild(os.Args[2:])
 		return
 	}
